@@ -302,8 +302,8 @@ func c17DocCheck(c *C17DocCase) ([]ev.Discrepancy, []string) {
 type C17Op struct {
 	Op   string `json:"op"` // change | full | delta | range | close | reopen
 	Doc  int    `json:"doc"`
-	Text int    `json:"text,omitempty"`   // index into Texts
-	Prev string `json:"prev,omitempty"`   // current | stale | unknown | empty
+	Text int    `json:"text,omitempty"` // index into Texts
+	Prev string `json:"prev,omitempty"` // current | stale | unknown | empty
 }
 
 type C17HistCase struct {
